@@ -1,4 +1,5 @@
 import SaphyrVerif.Spec.Interp
+import SaphyrVerif.Lemmas.C05_Main
 /-!
 # C05 — typed deserialization is position-faithful; shape mismatches are errors
 
@@ -56,6 +57,53 @@ def at_ (pre : List Ev) (t : ENode) (rest : List Ev) (ref : Option Loc) : Cur :=
 def after_ (pre : List Ev) (t : ENode) (rest : List Ev) (ref : Option Loc) : Cur :=
   .replay (pre ++ eflatten t ++ rest) (pre.length + (eflatten t).length) ref
 
+open Lemmas.C05 in
+mutual
+theorem tupleFree_eq : ∀ ty : Ty, tupleFree ty = tfree ty
+  | .tuple _ => by rw [tupleFree, tfree]
+  | .option t => by rw [tupleFree, tfree]; exact tupleFree_eq t
+  | .seq t => by rw [tupleFree, tfree]; exact tupleFree_eq t
+  | .newtype t => by rw [tupleFree, tfree]; exact tupleFree_eq t
+  | .map k v => by rw [tupleFree, tfree, tupleFree_eq k, tupleFree_eq v]
+  | .struct fs _ => by rw [tupleFree, tfree]; exact tupleFreeF_eq fs
+  | .enum _ vs => by rw [tupleFree, tfree]; exact tupleFreeV_eq vs
+  | .bool => rfl
+  | .int _ _ => rfl
+  | .float _ => rfl
+  | .char => rfl
+  | .string => rfl
+  | .unit => rfl
+  | .bytes => rfl
+  | .any => rfl
+theorem tupleFreeF_eq : ∀ fs : List (String × Ty), tupleFreeF fs = tfreeF fs
+  | [] => by rw [tupleFreeF, tfreeF]
+  | (_, t) :: r => by rw [tupleFreeF, tfreeF, tupleFree_eq t, tupleFreeF_eq r]
+theorem tupleFreeV_eq : ∀ vs : List (String × VTy), tupleFreeV vs = tfreeV vs
+  | [] => by rw [tupleFreeV, tfreeV]
+  | (_, .unit) :: r => by rw [tupleFreeV, tfreeV]; exact tupleFreeV_eq r
+  | (_, .newtype t) :: r => by rw [tupleFreeV, tfreeV, tupleFree_eq t, tupleFreeV_eq r]
+  | (_, .tuple _) :: _ => by rw [tupleFreeV, tfreeV]
+  | (_, .struct fs) :: r => by rw [tupleFreeV, tfreeV, tupleFreeF_eq fs, tupleFreeV_eq r]
+end
+
+open Lemmas.C05 in
+mutual
+theorem noKemnKeys_eq : ∀ t : ENode, noKemnKeys t = kfree t
+  | .scalar .. => by rw [noKemnKeys, kfree]
+  | .seq _ _ _ _ _ items => by rw [noKemnKeys, kfree]; exact noKemnKeysL_eq items
+  | .map _ _ _ entries => by rw [noKemnKeys, kfree]; exact noKemnKeysE_eq entries
+theorem noKemnKeysL_eq : ∀ ts : List ENode, noKemnKeysL ts = kfreeL ts
+  | [] => by rw [noKemnKeysL, kfreeL]
+  | n :: ns => by rw [noKemnKeysL, kfreeL, noKemnKeys_eq n, noKemnKeysL_eq ns]
+theorem noKemnKeysE_eq : ∀ es : List (ENode × ENode), noKemnKeysE es = kfreeE es
+  | [] => by rw [noKemnKeysE, kfreeE]
+  | (k, v) :: es => by
+    rw [noKemnKeysE.eq_def]
+    simp only []
+    rw [kfreeE, noKemnKeys_eq k, noKemnKeys_eq v, noKemnKeysE_eq es]
+    rfl
+end
+
 /-- (T) clean refinement for tuple-free types: on any stream that contains the events of `t` at the
 cursor, with enough fuel, deserialization into `ty` succeeds exactly when the specification assigns a value,
 returns exactly that value, and leaves the cursor exactly after `t` — it never touches `rest`
@@ -66,7 +114,23 @@ theorem deser_refines_interp (cfg : Cfg) (ty : Ty) (t : ENode) (pre rest : List 
       match interp cfg ty t with
       | some v => deser fuel cfg ty false false (at_ pre t rest ref) = .ok v (after_ pre t rest ref)
       | none => ∃ e c, deser fuel cfg ty false false (at_ pre t rest ref) = .err e c := by
-  sorry
+  have hk' : Lemmas.C05.kfree t = true := by rw [← noKemnKeys_eq]; exact hk
+  have hty' : Lemmas.C05.tfree ty = true := by rw [← tupleFree_eq]; exact hty
+  have hdrop : (pre ++ eflatten t ++ rest).drop pre.length = eflatten t ++ rest := by
+    rw [List.append_assoc, List.drop_left]
+  obtain ⟨n, hn⟩ := Lemmas.C05.ref_all cfg ty t hk' (pre ++ eflatten t ++ rest) pre.length ref rest hdrop
+  refine ⟨n, fun fuel hf => ?_⟩
+  have := hn fuel hf
+  simp only [at_, after_]
+  cases hi : interp cfg ty t with
+  | some v =>
+    rw [hi] at this
+    exact this
+  | none =>
+    rw [hi] at this
+    rcases this with h | ⟨hd, -⟩
+    · exact h
+    · rw [hty'] at hd; cases hd
 
 /-- the document-level check of the single-document entry points, on a replay cursor: the value, then the
 cursor must be at the end of the events -/
@@ -84,25 +148,67 @@ particular surplus or missing tuple elements, unknown variants and kind mismatch
 deficit left by an inner call is never repaired by an enclosing call. -/
 theorem deser_top_sound (cfg : Cfg) (ty : Ty) (t : ENode) (hk : noKemnKeys t = true) (fuel : Nat) (v : Val)
     (h : deserTop fuel cfg ty (eflatten t) = some v) : interp cfg ty t = some v := by
-  sorry
+  have hk' : Lemmas.C05.kfree t = true := by rw [← noKemnKeys_eq]; exact hk
+  obtain ⟨n, hn⟩ := Lemmas.C05.ref_all cfg ty t hk' (eflatten t) 0 none [] (by simp)
+  -- the successful run, with more fuel
+  simp only [deserTop] at h
+  cases hd : deser fuel cfg ty false false (.replay (eflatten t) 0 none) with
+  | err e c => rw [hd] at h; cases h
+  | ok v' c =>
+    rw [hd] at h
+    have hbig := Lemmas.C05.deser_mono_le (Nat.le_max_left fuel n) hd
+    have := hn (max fuel n) (Nat.le_max_right fuel n)
+    rw [hbig] at this
+    cases hi : interp cfg ty t with
+    | some w =>
+      rw [hi] at this
+      simp only [Lemmas.C05.NodeOut] at this
+      injection this with h1 h2
+      subst h1 h2
+      simp only [Nat.zero_add, Lemmas.C05.peek_at_end] at h
+      exact h
+    | none =>
+      rw [hi] at this
+      rcases this with ⟨e, c', he⟩ | ⟨-, w, j, he, hj1, hj2⟩
+      · cases he
+      · injection he with h1 h2
+        subst h1 h2
+        obtain ⟨ev, hev⟩ := Lemmas.C05.peek_inside (eflatten t) none (j := j) (by omega)
+        simp [hev] at h
 
 /-- (T) completeness at document level for tuple-free types -/
 theorem deser_top_complete (cfg : Cfg) (ty : Ty) (t : ENode) (hty : tupleFree ty = true) (hk : noKemnKeys t = true)
     (v : Val) (h : interp cfg ty t = some v) : ∃ n, ∀ fuel, n ≤ fuel → deserTop fuel cfg ty (eflatten t) = some v := by
-  sorry
+  obtain ⟨n, hn⟩ := deser_refines_interp cfg ty t [] [] none hty hk
+  refine ⟨n, fun fuel hf => ?_⟩
+  have := hn fuel hf
+  rw [h] at this
+  simp only [at_, after_, List.nil_append, List.append_nil, List.length_nil, Nat.zero_add] at this
+  simp only [deserTop, this, Lemmas.C05.peek_at_end]
 
 /-- (T) arity_mismatch_is_error (specification level): a tuple position accepts exactly as many nodes as it
 has components -/
 theorem arity_mismatch_is_error (cfg : Cfg) (ts : List Ty) (a tag : Nat) (rt : Option (List Char)) (l el : Loc)
     (items : List ENode) (h : items.length ≠ ts.length) :
     interp cfg (.tuple ts) (.seq a tag rt l el items) = none := by
-  sorry
+  rw [interp]
+  simp only [tupleNode]
+  rw [Lemmas.C05.tupleFrom_length_ne _ _ (by rw [Lemmas.C05.interpFns_length]; exact h)]; rfl
 
 /-- (T) unknown_variant_is_error -/
 theorem unknown_variant_is_error (cfg : Cfg) (name : String) (vs : List (String × VTy)) (v : List Char)
     (st : Style) (a : Nat) (l : Loc) (h : ∀ p ∈ vs, p.1.toList ≠ v) :
     interp cfg (.enum name vs) (.scalar v 0 none st a l) = none := by
-  sorry
+  rw [interp]
+  simp only [enumFrom]
+  have hs : simpleTaggedEnumName none 0 = none := by simp [simpleTaggedEnumName, tagOther]
+  rw [hs]
+  have : variantFrom cfg (variantFns cfg vs) v none false = none := by
+    apply Lemmas.C05.variantFrom_unknown
+    intro q hq
+    obtain ⟨p, hp, e⟩ := Lemmas.C05.variantFns_fst cfg vs q hq
+    rw [← e]; exact h p hp
+  simp [this]
 
 /-- (T) kind_mismatch_is_error: a scalar position never accepts a container, a sequence position never a
 mapping, a mapping position never a sequence -/
@@ -111,7 +217,7 @@ theorem kind_mismatch_is_error (cfg : Cfg) (a tag : Nat) (rt : Option (List Char
     interp cfg .bool (.seq a tag rt l el items) = none ∧ interp cfg (.int s w) (.map a l el es) = none ∧
     interp cfg .string (.seq a tag rt l el items) = none ∧ interp cfg (.seq t) (.map a l el es) = none ∧
     interp cfg (.map k v) (.seq a tag rt l el items) = none := by
-  sorry
+  refine ⟨?_, ?_, ?_, ?_, ?_⟩ <;> rw [interp]
 
 /-- (F) the excluded class is a genuine deviation of model and code (known finding
 C05-kemn-one-entry-null-key): for the key `{~: 1}` with value `2` the delivered entry is (None, 1): the
@@ -133,5 +239,64 @@ example : interp {} (.seq (.enum "E" [("A", .newtype (.int true 32)), ("B", .uni
   rfl
 example : deserTop 100 {} (.seq (.enum "E" [("A", .newtype (.int true 32)), ("B", .unit)])) (eflatten (.seq 0 0 none 1 9 [sc "A" 2, sc "5" 3])) = none := by
   rfl
+
+/-! ### regression examples for the findings made while proving C05
+
+History (all three were found by the proof attempt, confirmed on the implementation, and fixed):
+1. a recorded KEY and a buffered / MERGED VALUE were deserialized from their own replay buffer whose final
+   cursor was dropped, so surplus tuple elements were silently discarded (`{[1,2,3]: 7}` into
+   `HashMap<(i32,i32),i32>`, `{<<: {a: [1,2,3]}}` into `HashMap<String,(i32,i32)>`): fixed in code and model
+   (`deserKey` / `nextValue` now require the buffer to be consumed);
+2. an EMPTY `!!binary` scalar at a `Vec<T>` position is the empty vector for every `T`: the specification
+   (`interp`, `.seq t` on a `!!binary` scalar) was corrected;
+3. a TUPLE position on a `!!binary` scalar dropped surplus bytes (fixed in code and model,
+   `byteSeqVisit`), and with exactly one byte per integer component it is accepted (specification
+   `tupleNode` corrected).  -/
+
+def kSurplus : ENode := .map 0 1 9 [(.seq 0 0 none 2 6 [sc "1" 3, sc "2" 4, sc "3" 5], sc "7" 7)]
+example : deserTop 100 {} (.map (.tuple [.int true 32, .int true 32]) (.int true 32)) (eflatten kSurplus) = none := by rfl
+def mvSurplus : ENode :=
+  .map 0 1 19 [(sc "<<" 2, .map 0 3 9 [(sc "a" 4, .seq 0 0 none 5 8 [sc "1" 6, sc "2" 7, sc "3" 77])])]
+-- (by the soundness theorem: the specification rejects the surplus element)
+example : deserTop 100 {} (.map .string (.tuple [.int true 32, .int true 32])) (eflatten mvSurplus) = none := by
+  cases h : deserTop 100 {} (.map .string (.tuple [.int true 32, .int true 32])) (eflatten mvSurplus) with
+  | none => rfl
+  | some v =>
+    have := deser_top_sound {} _ mvSurplus (by rfl) 100 v h
+    have hn : interp {} (.map .string (.tuple [.int true 32, .int true 32])) mvSurplus = none := by rfl
+    rw [hn] at this; cases this
+example : deserTop 100 {} (.struct [("a", .tuple [.int true 32, .int true 32])] false) (eflatten mvSurplus) = none := by
+  cases h : deserTop 100 {} (.struct [("a", .tuple [.int true 32, .int true 32])] false) (eflatten mvSurplus) with
+  | none => rfl
+  | some v =>
+    have := deser_top_sound {} _ mvSurplus (by rfl) 100 v h
+    have hn : interp {} (.struct [("a", .tuple [.int true 32, .int true 32])] false) mvSurplus = none := by rfl
+    rw [hn] at this; cases this
+def emptyBinary : ENode := .scalar [] 8 none .double 0 1
+example : deserTop 100 {} (.seq .string) (eflatten emptyBinary) = some (.seq []) := by rfl
+example : interp {} (.seq .string) emptyBinary = some (.seq []) := by rfl
+def threeBytes : ENode := .scalar "AAEC".toList 8 none .plain 0 1
+example : deserTop 100 {} (.tuple [.int false 8, .int false 8]) (eflatten threeBytes) = none := by rfl
+example : interp {} (.tuple [.int false 8, .int false 8]) threeBytes = none := by rfl
+example : deserTop 100 {} (.tuple [.int false 8, .int false 8, .int false 8]) (eflatten threeBytes) =
+    some (.seq [.int 0, .int 1, .int 2]) := by rfl
+example : interp {} (.tuple [.int false 8, .int false 8, .int false 8]) threeBytes = some (.seq [.int 0, .int 1, .int 2]) := by rfl
+
+/- Proof structure (Lemmas/C05_*.lean): `Lemmas.C05.ref_all` — for every type (tuples included) and every
+admissible node, `deser` on a replay cursor at the node either returns exactly `interp` and stops exactly
+after the node, or fails, or (only for types containing a tuple) stops strictly inside the node — by
+induction on the nesting depth of the node and the size of the type; the map access is shown to deliver
+`effEntries` (`nextKey_spec`, `nextValue_spec`, `mapEntries_spec`, `structEntries_spec`); a stop strictly
+inside a node is never repaired by an enclosing call (`C05_Weak*`: no call moves the cursor below its starting
+nesting depth); `deser_top_sound` for arbitrary fuel uses the fuel monotonicity of success (`C05_Mono`).
+Imported statements used: `Props.C04.capture_node_exact`, `Props.C04.skip_one_node_exact`,
+`Props.C03.collect_entries_spec` (through `deser_refines_interp`, `deser_top_sound`, `deser_top_complete`). -/
+#print axioms deser_refines_interp
+#print axioms deser_top_sound
+#print axioms deser_top_complete
+#print axioms arity_mismatch_is_error
+#print axioms unknown_variant_is_error
+#print axioms kind_mismatch_is_error
+#print axioms kemn_key_takes_inner_value
 
 end SaphyrVerif.Props.C05
